@@ -110,4 +110,3 @@ func zzResumeLookup() {
 		zzsymCover("miss_other_key")
 	}
 }
-
